@@ -39,6 +39,31 @@ theorem last_scale_fits_two_chunks (sizes delays : List Nat) (e s d : Nat)
     sizeAt s (count sizes delays e none - 1) d ≤ 2 * 2 ^ e :=
   last_scale_fits sizes delays e s d hm
 
+/-- PARTIAL — "consecutive scales have compatible chunk sizes": when the axis delays take at most
+    two values (0 and one other — volumes with at most two distinct voxel sizes after rounding to
+    powers of two), the target exponent is at least 1 and no anisotropy reduction is needed, the
+    chunk-size exponents of EVERY pair of consecutive levels satisfy, on every axis, the relation the
+    pyramid computation needs (`compatExp`: halved axis — old chunk even, new chunk half or all of
+    it; axis not yet halved — new chunk equal to or twice the old one; this is `Pyramid.compatible`
+    in exponents). What is missing from the full statement is known finding F21 (three distinct
+    delays), witnessed below, and target chunk size 1 (finding F28). -/
+theorem chunk_sizes_compatible_partial (a b c e L : Nat) (he : 1 ≤ e)
+    (htwo : (a = 0 ∨ a = max (max a b) c) ∧ (b = 0 ∨ b = max (max a b) c) ∧ (c = 0 ∨ c = max (max a b) c))
+    (hsum : (max (max a b) c - a) + ((max (max a b) c - b) + (max (max a b) c - c)) ≤ 3 * e) :
+    ∃ o1 o2 o3 n1 n2 n3, chunkExps [a, b, c] e L = [o1, o2, o3] ∧ chunkExps [a, b, c] e (L + 1) = [n1, n2, n3] ∧
+      compatExp L a o1 n1 ∧ compatExp L b o2 n2 ∧ compatExp L c o3 n3 :=
+  compat3 a b c e L he htwo hsum
+
+/-- KNOWN FINDING F21 (kernel-checked witness): with three distinct delays (3, 5, 0) and target 16
+    the first axis is not halved between levels 0 and 1, yet its chunk size shrinks from 16 to 8 —
+    a combination the pyramid computation refuses. -/
+theorem three_delays_counterexample :
+    chunkExps [3, 5, 0] 4 0 = [4, 2, 7] ∧ chunkExps [3, 5, 0] 4 1 = [3, 2, 6] ∧ ¬ compatExp 0 3 4 3 := by
+  refine ⟨by decide, by decide, ?_⟩
+  simp [compatExp]
+
+example : compatExp 0 1 4 4 ∧ compatExp 0 0 5 5 := by simp [compatExp]
+
 /-- regression witness for repaired defect F27 (delay subtracted instead of added) -/
 example : count [256, 256, 2048] [0, 0, 1] 6 none = 6 ∧ sizeAt 2048 5 1 = 128 := by decide
 
